@@ -143,9 +143,12 @@ def run_cases(cases):
         d = P.Daemon(host="127.0.0.1", interface=P.expose(LoggingDaemonObject))
         ns = nameserver.NameServer()
         d.register(ns, "Pyro.NameServer")
+        uri_by_tag, current = {}, {}
         for nsname, tag in REGISTERED.items():
             uri = d.register(Target(tag), "obj_" + tag)
             ns.register(nsname, uri)
+            uri_by_tag[tag] = uri
+            current[nsname] = tag
         config.NS_HOST = "127.0.0.1"
         config.NS_PORT = int(d.locationStr.split(":")[1])
         drv = memnet.ServerDriver(d)
@@ -165,8 +168,20 @@ def run_cases(cases):
                     G._nameserver._pyroRelease()
                     G._nameserver = None
                 callcontext.current_context.correlation_id = None
-                env = build_request(r, i)
-                tr = {"r": r, "status": 0, "traffic": 0, "inv": 0, "inv_right": True, "body": "other", "index_leak": False,
+                # registrations change while the gateway runs: now and then the name is given to another object just before the
+                # request, or removed (then it is a name nobody has registered); afterwards things are put back
+                changed = None
+                if r["path"] == "call" and r["name"] == "exact" and i % 7 == 3:
+                    ns.register(NAMES["exact"], uri_by_tag["other"], safe=False)
+                    current[NAMES["exact"]] = "other"
+                    changed = "given_to_other"
+                elif r["path"] == "call" and r["name"] == "exact" and r["pattern"] in ("default", "empty") and i % 7 == 5:
+                    ns.remove(NAMES["exact"])
+                    current.pop(NAMES["exact"])
+                    changed = "removed"
+                    r = dict(r, name="unknown")         # (a name that matches the pattern and is not registered)
+                env = build_request(case["r"], i)
+                tr = {"r": r, "changed": changed or "", "status": 0, "traffic": 0, "inv": 0, "inv_right": True, "body": "other", "index_leak": False,
                       "path": env["PATH_INFO"], "qs": env["QUERY_STRING"]}
                 del log[:]
                 del contacted[:]
@@ -193,8 +208,11 @@ def run_cases(cases):
                     body = ("escaped: %s: %s" % (type(x).__name__, x)).encode("utf-8", "replace")
                 tr["traffic"] = hook.sent
                 tr["inv"] = len(log)
-                name, member = NAMES[r["name"]], member_text(r, i)
-                want = {"tag": REGISTERED.get(name), "member": member, "kwargs": expected_kwargs(r, i)}
+                name, member = NAMES[case["r"]["name"]], member_text(r, i)
+                want = {"tag": current.get(name), "member": member, "kwargs": expected_kwargs(r, i)}
+                if changed:
+                    ns.register(NAMES["exact"], uri_by_tag["echo"], safe=False)
+                    current[NAMES["exact"]] = "echo"
                 tr["inv_right"] = all({k: x[k] for k in ("tag", "member", "kwargs")} == want for x in log)
                 tr["invocations"] = [{k: x[k] for k in ("tag", "member", "kwargs")} for x in log]
                 try:
